@@ -27,6 +27,10 @@ func raceMain(goroutines, rounds int, seed uint64) int {
 		"n = n + 1; if (Name ~= /^b/ || match(Name, \"o\")) { return true; } return len(Tags) > 1;",
 		"n = n + 1; total = total + Count; foreach t in Tags { if (t == \"x\") { return true; } } return replace(Name, /a/, \"b\") == \"bbb\";",
 		"function f(c) { n = n + 1; return c * 2; } return f(Count) > 4;",
+		// hashes with string keys (key hashing), built-ins with caches or tables: shared package state, if any
+		"n = n + 1; h = {\"a\": Count, \"b\": Name, \"k\" + Name: 1}; k = keys(h); if (h[\"a\"] != Count) { return nosuch(); } if (h[\"k\" + Name] != 1) { return nosuch(); } return len(k) == 3 && Count > 2;",
+		"n = n + 1; xs = sort([Name, \"m\", \"z\"]); s = sprintf(\"%s-%d\", Name, Count); if (lower(upper(s)) != lower(s)) { return nosuch(); } return xs[0] <= xs[1] && Count > 2;",
+		"n = n + 1; t = 86400 * Count; d = [year(t), month(t), day(t), weekday(t), hour(t)]; if (d[0] != 1970) { return nosuch(); } return split(\"a,b\", \",\")[1] == \"b\" && Count > 2;",
 	}
 	names := []string{"bob", "alice", "aaa", "", "foo", "zed"}
 	for si, script := range scripts {
